@@ -137,7 +137,17 @@ def main():
     lines = [c.line for c in cases]
     impl = lib.run_proto(hb, lines)
     impl_rel = lib.run_proto(harness_release, lines) if harness_release else None
-    model = lib.run_proto(drv, lines) if drv else [None] * len(lines)
+    def run_model(cs):
+        """the model runs only on the cases that are compared (big adversarial inputs are implementation-only)"""
+        if not drv:
+            return [None] * len(cs)
+        idx = [i for i, c in enumerate(cs) if c.compare]
+        outs = lib.run_proto(drv, [cs[i].line for i in idx], timeout=300)
+        res = [None] * len(cs)
+        for i, o in zip(idx, outs):
+            res[i] = o
+        return res
+    model = run_model(cases)
     if hasattr(mod, "followup") and not args.replay:
         extra = []
         for i, c in enumerate(cases):
@@ -149,7 +159,7 @@ def main():
             impl += lib.run_proto(hb, elines)
             if impl_rel is not None:
                 impl_rel += lib.run_proto(harness_release, elines)
-            model += lib.run_proto(drv, elines) if drv else [None] * len(elines)
+            model += run_model(extra)
 
     # ---- 4. correspondence + oracle --------------------------------------
     known = [k for k in lib.load_known() if k.get("property") == prop and k.get("status") == "open"]
@@ -306,7 +316,15 @@ def main():
             cov.update(mod.extra_coverage(cases, impl, model))
         except Exception as e:
             cov["extra_coverage_error"] = repr(e)
-    lib.write_evidence(prop, tier, seed, cov, time.time() - t0, len(violations), getattr(mod, "ASSUMPTIONS", []))
+    level = "proof"
+    try:
+        man = json.load(open(os.path.join(lib.VERIF, "MANIFEST.json")))
+        for c in man.get("checks", []):
+            if c.get("property_id") == prop:
+                level = c["level_claimed"]["category"]
+    except Exception:
+        pass
+    lib.write_evidence(prop, tier, seed, cov, time.time() - t0, len(violations), getattr(mod, "ASSUMPTIONS", []), level=level)
     if exit_code == 0:
         say("OK property=%s tier=%s cases=%d obligations=%d/%d wall=%.1fs" %
             (prop, tier, len(cases), cov["discharged"], cov["obligations"], time.time() - t0))
